@@ -166,6 +166,13 @@ fn graph_history(t: &mut Tape) -> CaseOutcome {
         }
         model.push(MNode::default());
     }
+    // the graph as it is before any operation (it may be empty)
+    if let Some(f) = scan_graph(&graph, &model, &log) {
+        return f;
+    }
+    if graph.node_count() != model.len() {
+        return fail("node_count", format!("node_count {} but {} nodes were added", graph.node_count(), model.len()), &log);
+    }
     let hub_bias = t.choose(4); // 0: no hub
     for step in 0..nops {
         let op = if model.is_empty() { 0 } else { t.weighted(&[3, 10, 3, 4, 5, 3, 2]) };
